@@ -362,9 +362,17 @@ class Prop:
             os.mkdir(root)
             build_dir(root, desc["tree"])
             seen = observed_order(root, desc["tree"])
-            tree = load_tree_from_fs(root if how != "pathobj" else Path(root), sort=sort)
+            try:
+                tree = load_tree_from_fs(root if how != "pathobj" else Path(root), sort=sort)
+            except Exception as e:  # noqa: BLE001  -- the scan of a readable directory must not raise
+                tree = None
+                load_err = f"{type(e).__name__}: {e}"
             if observed_order(root, desc["tree"]) != seen:
                 raise RuntimeError("environment: listing order changed during the scan")
+            if tree is None:
+                return Case(desc=desc, coq_input=f"(CLoad {H.coq_bool(sort)} {H.coq_list(coq_fsn(e) for e in seen)})",
+                            impl_obs=[-1], oracle_fail="load-raises: " + load_err, nontrivial=True,
+                            key=H.digest([sort, desc["tree"]]), stats=dict(kind="load", sort=sort, raised=True))
             o_tree = obs_tree(tree)
 
             # save to a real file OUTSIDE the scanned folder, read the raw node list, load it back
